@@ -352,7 +352,7 @@ CHECKS["C02"] = {
             "change the read set (C02_stays_current, invariant Current /\\ nothing-read-changed-unobserved by induction over the history); without coverage a binding goes stale "
             "(C02_stale_without_coverage_refuted). COVERAGE is proved at the level of the IR for the model of tir/propdep.rs (model/Passes.v, tied to the implementation "
             "token by token by the K legs of C05/C06/C07): after the dependency analysis, in every block every read of a non-constant property through a pointer is a "
-            "static dependency or is immediately preceded by the observation of that local with that notify signal (C02_dependency_complete_ir); the same coverage "
+            "static dependency or is immediately preceded by the observation of that local with that notify signal (C02_dependency_complete_ir); the 'unobservable property' diagnostic is raised exactly when some block reads through a pointer a non-constant property without notify signal (C02_unobservable_reads_are_diagnosed); the same coverage "
             "predicate runs as a checker on the implementation's own analysed IR of generated programs, and that checker is proved to decide the predicate "
             "(signals up to class, name and argument types: C02_ir_checker_sound). That the real generated C++ has frame and coverage is NOT proved: the property itself is decided on the real output "
             "per binding and history -- the support header is compiled against the API model (setters emit notify on change, connect/disconnect dispatch), setup() is "
